@@ -33,5 +33,5 @@ Deliverables, written to the directory /tmp/wt/{pid}-out/ (create it):
                    for it to manifest, and the exact commands you ran (suite result with the change; demo with and without).
 
 Before finishing, verify yourself: (a) with the change applied the full test suite passes; (b) demo.py fails with the
-change; (c) `git stash` / reverse the patch -> demo.py passes; then re-apply so the worktree contains the change.
+change; (c) reverse the patch with `git diff > p.diff; git apply -R p.diff` (NOT `git stash`: the stash is shared by all worktrees of the repository and other agents work next to you) -> demo.py passes; then re-apply (`git apply p.diff`) so the worktree contains the change.
 Keep the patch small (ideally < 30 changed lines). Report the final contents of notes.md as your answer.""")
